@@ -10,18 +10,22 @@ import (
 
 func createLockFile(name string, perm os.FileMode) (LockFile, bool, error) {
 	acquiredExisting := false
+	verifYield("lock.stat")
 	if _, err := os.Stat(name); err == nil {
 		acquiredExisting = true
 	}
+	verifYield("lock.open")
 	f, err := os.OpenFile(name, os.O_RDWR|os.O_CREATE, perm)
 	if err != nil {
 		return nil, false, err
 	}
+	verifYield("lock.flock")
 	if err := syscall.Flock(int(f.Fd()), syscall.LOCK_EX|syscall.LOCK_NB); err != nil {
 		if err == syscall.EWOULDBLOCK {
 			err = os.ErrExist
 		}
 		return nil, false, err
 	}
+	verifYield("lock.acquired")
 	return &osLockFile{f, name}, acquiredExisting, nil
 }
